@@ -40,7 +40,7 @@ func cowNew(name string) *cowStack {
 			panic(err)
 		}
 		syscallUmask()
-		b := &rootedFs{afero.NewOsFs(), dir}
+		b := &rootedFs{afero.NewOsFs(), dir, false}
 		return &cowStack{afero.NewCopyOnWriteFs(b, l), b, l, func() { os.RemoveAll(dir) }}
 	case "cow-ro":
 		b := afero.NewMemMapFs()
@@ -52,7 +52,7 @@ func cowNew(name string) *cowStack {
 		}
 		syscallUmask()
 		b := afero.NewMemMapFs()
-		ol := &rootedFs{afero.NewOsFs(), dir}
+		ol := &rootedFs{afero.NewOsFs(), dir, false}
 		return &cowStack{afero.NewCopyOnWriteFs(b, ol), b, ol, func() { os.RemoveAll(dir) }}
 	}
 	panic("unknown stack " + name)
@@ -369,6 +369,7 @@ func c06Oracle(c corr.Case, impl []string) (string, int) {
 // ---- generators ----
 
 var cowDirs = []string{"/d", "/d/s", "/e"}
+
 // ("/d/f.tmp", "/d/f~": siblings whose names differ from another file's by a suffix a temporary copy might be given)
 var cowFiles = []string{"/d/f", "/d/g", "/d/s/h", "/e/k", "/top", "/d/f.tmp", "/d/f~"}
 
@@ -716,7 +717,9 @@ func C05() *corr.Engine {
 		Classify:   cowClassify,
 		Rule:       "9 base/overlay presence combinations × (flag table × every handle method, every Fs method on file/dir targets, every page size, partial patches) on cow(mem,mem), cow(os,mem), cow(ro(mem),mem) + random histories over random layer pairs; non-trivial = at least one copy-up and at least one write through a handle returned by the union; distinct by script hash",
 		Signature:  cowSig("C05"),
-		CompareLine: func(impl, model string) bool { return model == "unmodelled" || cowStrip(impl) == model || namesSetEq(cowStrip(impl), model) },
+		CompareLine: func(impl, model string) bool {
+			return model == "unmodelled" || cowStrip(impl) == model || namesSetEq(cowStrip(impl), model)
+		},
 	}
 }
 
